@@ -1,10 +1,510 @@
 /-
-  MdModel.Paths — placeholder (model not written yet).
+  MdModel.Paths — executable model of the symbol lookup paths (property C17).
+
+  Code modelled (breakpad-symbols/src/lib.rs, as repaired by the `fix:` commit "symbol lookup
+  paths can no longer escape the symbol and cache directories"):
+    `leafname`, `safe_leafname`, `replace_or_add_extension`, `breakpad_sym_lookup`,
+    `code_info_breakpad_sym_lookup`, `extra_debuginfo_lookup`, `binary_lookup`, `moz_lookup`,
+    `lookup`; from the `debugid` crate (0.8.0, trusted, re-implemented from its source):
+    `CodeId::new` (retain ASCII hex digits, ASCII lower-case), `DebugId::breakpad()` and
+    `DebugId`'s `Display`; and the join operations of the consumers (`Path::join`, `Url::join`).
+
+  Paths are `List Char` (Rust `str` = sequence of Unicode scalar values; every operation used by
+  the code is char-wise or, where byte-wise, only inspects ASCII bytes — see `hasDrivePrefix`).
+  Core-only imports.
 -/
 import MdModel.Prelude
 namespace MdModel.Paths
 
-/-- line-protocol entry point of this model (engine(s): paths) -/
-def handle (_engine : String) (_args : List String) : String := "bad-op"
+abbrev Str := List Char
+
+/-- the two path separator styles the code recognises: `['/', '\\']` -/
+def isSep (c : Char) : Bool := c == '/' || c == '\\'
+
+/-- Split at every character satisfying `p` (Rust `str::split(pattern)`): always at least one
+    piece; `n` separators give `n+1` pieces, empty pieces included. -/
+def splitOnP (p : Char → Bool) : Str → List Str
+  | [] => [[]]
+  | c :: cs =>
+    if p c then [] :: splitOnP p cs
+    else match splitOnP p cs with
+      | [] => [[c]]          -- unreachable: `splitOnP` never returns `[]`
+      | w :: ws => (c :: w) :: ws
+
+/-- Rust `[..].join(sep)` -/
+def joinWith (sep : Str) : List Str → Str
+  | [] => []
+  | [x] => x
+  | x :: y :: rest => x ++ sep ++ joinWith sep (y :: rest)
+
+/-- `leafname` (lib.rs:173): `path.rsplit(['/', '\\']).next().unwrap_or(path)` — the text after
+    the last separator, the whole string if there is none (`rsplit` always yields one item, so
+    the `unwrap_or` branch is dead). -/
+def leafname (path : Str) : Str :=
+  (path.reverse.takeWhile (fun c => !isSep c)).reverse
+
+/-- `bytes.len() >= 2 && bytes[0].is_ascii_alphabetic() && bytes[1] == b':'` (lib.rs:185).
+    The Rust test is on UTF-8 bytes; byte 0 is an ASCII letter iff the first char is one (lead
+    bytes of multi-byte chars are ≥ 0x80), and then byte 1 starts the second char, which is `:`
+    iff that byte is 0x3A. So the char-wise test is the same test. -/
+def hasDrivePrefix : Str → Bool
+  | a :: b :: _ => a.isAlpha && b == ':'
+  | _ => false
+
+/-- `safe_leafname` (lib.rs:182-191) -/
+def safeLeafname (path : Str) : Option Str :=
+  let leaf := leafname path
+  if leaf = [] ∨ leaf = ['.'] ∨ leaf = ['.', '.'] ∨ hasDrivePrefix leaf = true then none
+  else some leaf
+
+/-- `replace_or_add_extension` (lib.rs:194-205).
+    `e.to_lowercase() == match_extension`: Rust lower-cases by Unicode rules; the only call sites
+    pass `"pdb"` and `"dll"`, and the only characters whose Unicode lower-casing yields one of
+    `p d b l` are those letters and their ASCII capitals (checked exhaustively over all scalar
+    values by the `paths` engine, case `lowercase-table`), and no multi-char lower-casing
+    (`İ` → `i̇`) produces them. Hence ASCII lower-casing (`Char.toLower`) decides the same test. -/
+def replaceOrAddExtension (filename matchExt newExt : Str) : Str :=
+  let bits := splitOnP (· == '.') filename
+  let bits :=
+    if bits.length > 1 ∧ (bits.getLast?.map (·.map Char.toLower)) = some matchExt
+    then bits.dropLast else bits
+  joinWith ['.'] (bits ++ [newExt])
+
+/-! ### identifiers (crate `debugid` 0.8.0 — trusted, modelled from its source) -/
+
+def isAsciiHexDigit (c : Char) : Bool :=
+  ('0' ≤ c ∧ c ≤ '9') || ('a' ≤ c ∧ c ≤ 'f') || ('A' ≤ c ∧ c ≤ 'F')
+
+/-- `CodeId::new`: `string.retain(|c| c.is_ascii_hexdigit()); string.make_ascii_lowercase()`.
+    Every `CodeId` value is `CodeId::new s` for some `s` (the field is private; `nil`/`default`
+    is `new ""`, `from_binary`/`From`/`FromStr` call `new`), and `new` is idempotent, so a module's
+    code identifier is represented by an arbitrary raw string to which `new` is applied. -/
+def codeIdNew (s : Str) : Str := (s.filter isAsciiHexDigit).map Char.toLower
+
+def hexU (n : Nat) : Char :=
+  if n < 10 then Char.ofNat ('0'.toNat + n) else Char.ofNat ('A'.toNat + (n - 10))
+def hexL (n : Nat) : Char :=
+  if n < 10 then Char.ofNat ('0'.toNat + n) else Char.ofNat ('a'.toNat + (n - 10))
+
+def upperHexByte (b : UInt8) : Str := [hexU (b.toNat / 16), hexU (b.toNat % 16)]
+def lowerHexByte (b : UInt8) : Str := [hexL (b.toNat / 16), hexL (b.toNat % 16)]
+
+def lowerHexFuel : Nat → Nat → Str → Str
+  | 0, _, acc => acc
+  | fuel + 1, n, acc =>
+    let acc' := hexL (n % 16) :: acc
+    if n / 16 = 0 then acc' else lowerHexFuel fuel (n / 16) acc'
+
+/-- `{:x}` of an unsigned number: at least one digit, lower case, no padding. -/
+def lowerHexNat (n : Nat) : Str := lowerHexFuel (n + 1) n []
+
+/-- `debugid::DebugId`: 16 `bytes` (a UUID, or for PDB 2.0 a big-endian timestamp in the first 4),
+    `appendix` (age, `u32`), `typ`. The theorems do not need the sizes, so they are not restricted. -/
+structure DebugId where
+  pdb20 : Bool
+  bytes : List UInt8
+  appendix : Nat
+  deriving Repr, DecidableEq
+
+/-- `DebugId::breakpad().to_string()`: `{:08X}{:x}` (timestamp, appendix) for PDB 2.0, else
+    `{:X}{:x}` (uuid.simple(), appendix). -/
+def DebugId.breakpad (d : DebugId) : Str :=
+  (if d.pdb20 then (d.bytes.take 4).flatMap upperHexByte else d.bytes.flatMap upperHexByte)
+    ++ lowerHexNat d.appendix
+
+/-- hyphenated lower-case UUID `8-4-4-4-12` -/
+def uuidHyphenated (bs : List UInt8) : Str :=
+  let h (xs : List UInt8) : Str := xs.flatMap lowerHexByte
+  h (bs.take 4) ++ '-' :: h ((bs.drop 4).take 2) ++ '-' :: h ((bs.drop 6).take 2) ++ '-' ::
+    h ((bs.drop 8).take 2) ++ '-' :: h (bs.drop 10)
+
+/-- `DebugId`'s `Display` (`debug_id.to_string()`) -/
+def DebugId.display (d : DebugId) : Str :=
+  (if d.pdb20 then (d.bytes.take 4).flatMap upperHexByte else uuidHyphenated d.bytes)
+    ++ (if d.appendix > 0 then '-' :: lowerHexNat d.appendix else [])
+
+/-! ### the lookups -/
+
+/-- what the lookups read from a `Module` (`minidump_common::traits::Module`) -/
+structure Module where
+  code_file : Str                 -- `code_file()`: never absent
+  code_id : Option Str            -- `code_identifier()`: raw string, see `codeIdNew`
+  debug_file : Option Str         -- `debug_file()`
+  debug_id : Option DebugId       -- `debug_identifier()`
+  deriving Repr
+
+structure FileLookup where
+  debug_id : Str
+  debug_file : Str
+  cache_rel : Str
+  server_rel : Str
+  deriving Repr, DecidableEq
+
+inductive FileKind | BreakpadSym | Binary | ExtraDebugInfo
+  deriving Repr, DecidableEq
+
+def sym : Str := ['s', 'y', 'm']
+def pdb : Str := ['p', 'd', 'b']
+def dll : Str := ['d', 'l', 'l']
+def slash : Str := ['/']
+
+/-- the lookups are parameterised by the leaf function so that the pre-fix variant
+    (`leafname` only, never `none`) can be stated next to the current one -/
+def breakpadSymLookupWith (leafOf : Str → Option Str) (m : Module) : Option FileLookup := do
+  let debug_file ← m.debug_file
+  let debug_id ← m.debug_id
+  let leaf ← leafOf debug_file
+  let filename := replaceOrAddExtension leaf pdb sym
+  let rel := joinWith slash [leaf, debug_id.breakpad, filename]
+  some { cache_rel := rel, server_rel := rel, debug_id := debug_id.breakpad, debug_file := filename }
+
+def codeInfoLookupWith (leafOf : Str → Option Str) (m : Module) : Option Str := do
+  let code_id ← m.code_id
+  if m.code_file = [] then none else
+  let leaf ← leafOf m.code_file
+  let filename := replaceOrAddExtension leaf dll sym
+  -- `code_identifier.to_string().to_uppercase()`: the string is ASCII hex only
+  some (joinWith slash [leaf, (codeIdNew code_id).map Char.toUpper, filename])
+
+def extraDebuginfoLookupWith (leafOf : Str → Option Str) (m : Module) : Option FileLookup := do
+  let debug_file ← m.debug_file
+  let debug_id ← m.debug_id
+  let leaf ← leafOf debug_file
+  let rel := joinWith slash [leaf, debug_id.breakpad, leaf]
+  some { cache_rel := rel, server_rel := rel, debug_id := debug_id.display, debug_file := leaf }
+
+def binaryLookupWith (leafOf : Str → Option Str) (m : Module) : Option FileLookup := do
+  let code_id ← m.code_id
+  let debug_file ← m.debug_file
+  let debug_id ← m.debug_id
+  let bin_leaf ← leafOf m.code_file
+  let debug_leaf ← leafOf debug_file
+  some { cache_rel := joinWith slash [debug_leaf, debug_id.breakpad, bin_leaf],
+         server_rel := joinWith slash [bin_leaf, codeIdNew code_id, bin_leaf],
+         debug_id := debug_id.display, debug_file := debug_file }
+
+def lookupWith (leafOf : Str → Option Str) (m : Module) : FileKind → Option FileLookup
+  | .BreakpadSym => breakpadSymLookupWith leafOf m
+  | .Binary => binaryLookupWith leafOf m
+  | .ExtraDebugInfo => extraDebuginfoLookupWith leafOf m
+
+/-- the code as it is now (lib.rs:233-327) -/
+def breakpadSymLookup := breakpadSymLookupWith safeLeafname
+def codeInfoBreakpadSymLookup := codeInfoLookupWith safeLeafname
+def extraDebuginfoLookup := extraDebuginfoLookupWith safeLeafname
+def binaryLookup := binaryLookupWith safeLeafname
+def lookup := lookupWith safeLeafname
+
+/-- the code before the repair: `leafname` only -/
+def lookupOld := lookupWith (fun p => some (leafname p))
+def codeInfoLookupOld := codeInfoLookupWith (fun p => some (leafname p))
+
+/-- `moz_lookup` (lib.rs:317-321): `server_rel.pop().unwrap(); server_rel.push('_')`.
+    `pop` on an empty string is `None`: the `unwrap` panics. -/
+def mozLookup (l : FileLookup) : Outcome FileLookup :=
+  if l.server_rel = [] then .panic "moz_lookup: server_rel.pop().unwrap()"
+  else .ok { l with server_rel := l.server_rel.dropLast ++ ['_'] }
+
+/-! ### what "genuinely relative" means, and the joins of the consumers -/
+
+/-- components as the property counts them: split on BOTH separator styles -/
+def comps (p : Str) : List Str := splitOnP isSep p
+
+def dotdot : Str := ['.', '.']
+
+/-- executable form of `Rooted` (MdProofs.C17): non-empty, does not start with a separator
+    (which also excludes a UNC prefix = two leading separators), does not start with a drive
+    prefix `[A-Za-z]:`, and no component (on both separators) is `..`. -/
+def rootedb (p : Str) : Bool :=
+  (match p with
+   | [] => false
+   | c :: _ => !isSep c)
+  && !hasDrivePrefix p
+  && !(comps p).contains dotdot
+
+/-- **The specification predicate of C17**: `p` is genuinely relative.
+    * `nonempty`, `no_leading_sep`: the first component is non-empty — the path does not start with
+      `/` or `\` (so it is neither absolute nor carries a UNC / verbatim / device prefix, which all
+      begin with two separators);
+    * `no_drive`: it does not begin with a drive prefix `[A-Za-z]:` (`C:x` is drive-relative on
+      Windows and `Path::join` then discards the root);
+    * `no_dotdot`: no component — splitting on BOTH separators — is `..`.
+    Platform independent: checked on the string, not through the host's `Path`. -/
+structure Rooted (p : Str) : Prop where
+  nonempty : p ≠ []
+  no_leading_sep : ∀ c, p.head? = some c → isSep c = false
+  no_drive : hasDrivePrefix p = false
+  no_dotdot : dotdot ∉ comps p
+
+inductive Flavor | unix | windows
+  deriving Repr, DecidableEq
+
+def Flavor.isSep : Flavor → Char → Bool
+  | .unix, c => c == '/'
+  | .windows, c => Paths.isSep c
+def Flavor.mainSep : Flavor → Char
+  | .unix => '/'
+  | .windows => '\\'
+
+/-- does pushing `rel` onto a path discard (part of) that path?  Unix: `rel` is absolute (leading
+    `/`). Windows: `rel` has a root (leading `/` or `\`, which includes UNC/verbatim/device
+    prefixes) or a drive prefix `X:`. -/
+def Flavor.replaces (f : Flavor) (rel : Str) : Bool :=
+  (match rel with
+   | [] => false
+   | c :: _ => f.isSep c)
+  || (match f with
+      | .unix => false
+      | .windows => hasDrivePrefix rel)
+
+/-- `need_sep` of `PathBuf::push`: the path is non-empty and does not end with a separator -/
+def Flavor.needSep (f : Flavor) (root : Str) : Bool :=
+  match root.getLast? with
+  | none => false
+  | some c => !f.isSep c
+
+/-- `Path::join` / `PathBuf::push` (std, trusted; the Unix flavour is compared with
+    `std::path::Path::join` on every run, the Windows flavour is an abstraction of the documented
+    behaviour: a rooted or prefixed argument does not extend the path, it replaces it — here by
+    `rel` itself, the exact result for drive-relative arguments is irrelevant to the theorems). -/
+def pathJoin (f : Flavor) (root rel : Str) : Str :=
+  if f.replaces rel then rel
+  else if f.needSep root then root ++ f.mainSep :: rel else root ++ rel
+
+/-- normalised components of a path in one flavour, as `Path::components()` yields them after the
+    root: empty components and `.` are dropped -/
+def Flavor.comps (f : Flavor) (p : Str) : List Str :=
+  (splitOnP f.isSep p).filter (fun w => w ≠ [] ∧ w ≠ ['.'])
+
+/-- containment by component walk: depth below the start never becomes negative.
+    `none` = the walk climbed above its starting directory. -/
+def walkDepth : Nat → List Str → Option Nat
+  | d, [] => some d
+  | d, w :: ws =>
+    if w = dotdot then (match d with
+      | 0 => none
+      | d' + 1 => walkDepth d' ws)
+    else walkDepth (d + 1) ws
+
+/-! ### the URL of a download: `join_lookup_path` (breakpad-symbols/src/http.rs, as repaired by
+     "fix: module names can no longer redirect symbol downloads away from the server's base URL")
+
+  Every `/`-separated component of `rel` is percent-encoded byte-wise and appended below the
+  directory of the base URL's path; a component `.` or `..` makes the function return `None`.
+  Only the path of the base URL changes (`set_path`, query and fragment cleared): trusted — the
+  `url` crate stores an ASCII path made of the characters below and `%XX` triples unchanged; the
+  engine compares the path of the request actually sent with this model. -/
+
+/-- bytes copied as they are: ASCII letters, digits and `- . _ ~ ! $ & ' ( ) * + , ; = : @` -/
+def keepRaw (b : UInt8) : Bool :=
+  (65 ≤ b && b ≤ 90) || (97 ≤ b && b ≤ 122) || (48 ≤ b && b ≤ 57) ||
+  [45, 46, 95, 126, 33, 36, 38, 39, 40, 41, 42, 43, 44, 59, 61, 58, 64].contains b
+
+/-- one byte of a component: itself, or `%XX` with upper-case hex -/
+def pctEncodeByte (b : UInt8) : Str :=
+  if keepRaw b then [Char.ofNat b.toNat] else ['%', hexU (b.toNat / 16), hexU (b.toNat % 16)]
+
+def utf8 (w : Str) : List UInt8 := w.flatMap String.utf8EncodeChar
+
+/-- `for byte in component.bytes() { … }` -/
+def pctEncode (w : Str) : Str := (utf8 w).flatMap pctEncodeByte
+
+/-- `base_path[..base_path.rfind('/')? + 1]`: up to and including the last `/` -/
+def baseDir (basePath : Str) : Option Str :=
+  if basePath.contains '/' then
+    some (basePath.reverse.dropWhile (· != '/')).reverse
+  else none
+
+/-- `join_lookup_path`, as a function of the base URL's path: the new path -/
+def joinLookupPath (basePath rel : Str) : Option Str :=
+  match baseDir basePath with
+  | none => none
+  | some dir =>
+    let cs := splitOnP (· == '/') rel
+    if cs.any (fun c => c == ['.'] || c == dotdot) then none
+    else some (dir ++ joinWith ['/'] (cs.map pctEncode))
+
+/-- percent-decoding of an ASCII path segment into bytes (a malformed `%` stands for itself) -/
+def pctDecode : Str → List UInt8
+  | [] => []
+  | c :: rest =>
+    if c = '%' then
+      match rest with
+      | a :: b :: rest' =>
+        match Proto.hexDigitVal a, Proto.hexDigitVal b with
+        | some x, some y => UInt8.ofNat (x * 16 + y) :: pctDecode rest'
+        | _, _ => 37 :: pctDecode (a :: b :: rest')
+      | short => 37 :: short.map (fun d => UInt8.ofNat d.toNat)
+    else UInt8.ofNat c.toNat :: pctDecode rest
+termination_by l => l.length
+decreasing_by all_goals (simp_all; try omega)
+
+/-- the Unicode-free alphabet of an encoded segment -/
+def urlSegChars : List Char :=
+  "ABCDEFGHIJKLMNOPQRSTUVWXYZabcdefghijklmnopqrstuvwxyz0123456789-._~!$&'()*+,;=:@%".toList
+
+/-- what the pre-fix code did: `Url::join(rel)` parses `rel` as a URL reference. Not modelled
+    (WHATWG URL parsing); `urlRefHazard` names the inputs on which it demonstrably left the
+    base (witnesses replayed by the engine against `url::Url::join`): a scheme prefix, a
+    leading C0-control/space (trimmed, exposing a leading `/`), TAB/LF/CR (deleted), `%2e`
+    spelled dots. -/
+def hasSchemePrefix : Str → Bool
+  | c :: rest =>
+    c.isAlpha &&
+      (match rest.dropWhile (fun d => d.isAlphanum || d == '+' || d == '-' || d == '.') with
+       | ':' :: _ => true
+       | _ => false)
+  | [] => false
+
+/-! ### line protocol
+
+  `paths <op> code:<hex> debug:<hex|none> did:<none|u:<hex bytes>:<appendix hex>|p:<hex bytes>:<appendix hex>> cid:<hex|none>`
+      op ∈ sym bin extra            -> none | cache:<hex> server:<hex> file:<hex> id:<hex> rooted:<0|1>,<0|1>
+      op = codeinfo                 -> none | rel:<hex> rooted:<0|1>
+      op ∈ moz-sym moz-bin moz-extra-> none | PANIC | (as above, after `moz_lookup`)
+      op ∈ old-sym old-bin old-extra old-codeinfo : the pre-fix variant (model only)
+  `paths mozraw server:<hex>`       -> PANIC | server:<hex>
+  `paths join <unix|windows> root:<hex> rel:<hex>` -> joined:<hex> inside:<0|1>
+  `paths rooted rel:<hex>`          -> rooted:<0|1>
+  `paths url <sym|bin|extra|codeinfo|moz-*> base:<hex> code:.. debug:.. did:.. cid:..`
+                                    -> none | path:<hex>     (path of the request URL)
+  `paths urljoin base:<hex> rel:<hex>` -> none | path:<hex>
+  strings are the hex of their UTF-8 bytes (`-` = empty).
+-/
+open Proto
+
+def decodeStr (h : String) : Option Str := do
+  let bs ← unhex h
+  let s ← String.fromUTF8? (ByteArray.mk bs.toArray)
+  some s.toList
+
+def encodeStr (s : Str) : String := hex (String.ofList s).toUTF8.toList
+
+def field (pre : String) (s : String) : Option String :=
+  if s.startsWith pre then some (s.drop pre.length).toString else none
+
+def decodeOptStr (h : String) : Option (Option Str) :=
+  if h == "none" then some none else (decodeStr h).map some
+
+def decodeDid (s : String) : Option (Option DebugId) :=
+  if s == "none" then some none else
+  match s.splitOn ":" with
+  | [t, b, a] =>
+    match unhex b, parseHexNat a with
+    | some bs, some app =>
+      if t == "u" then some (some ⟨false, bs, app⟩)
+      else if t == "p" then some (some ⟨true, bs, app⟩)
+      else none
+    | _, _ => none
+  | _ => none
+
+def b01 (b : Bool) : String := if b then "1" else "0"
+
+def showLookup (l : FileLookup) : String :=
+  s!"cache:{encodeStr l.cache_rel} server:{encodeStr l.server_rel} file:{encodeStr l.debug_file} id:{encodeStr l.debug_id} rooted:{b01 (rootedb l.cache_rel)},{b01 (rootedb l.server_rel)}"
+
+def showOptLookup : Option FileLookup → String
+  | none => "none"
+  | some l => showLookup l
+
+def showMoz : Option FileLookup → String
+  | none => "none"
+  | some l => match mozLookup l with
+    | .panic _ => "PANIC"
+    | .ok l' => showLookup l'
+
+def showRel : Option Str → String
+  | none => "none"
+  | some r => s!"rel:{encodeStr r} rooted:{b01 (rootedb r)}"
+
+def parseModule (args : List String) : Option Module :=
+  match args with
+  | [c, d, i, k] => do
+    let code ← (field "code:" c) >>= decodeStr
+    let debug ← (field "debug:" d) >>= decodeOptStr
+    let did ← (field "did:" i) >>= decodeDid
+    let cid ← (field "cid:" k) >>= decodeOptStr
+    some { code_file := code, code_id := cid, debug_file := debug, debug_id := did }
+  | _ => none
+
+def kindOf : String → Option FileKind
+  | "sym" => some .BreakpadSym
+  | "bin" => some .Binary
+  | "extra" => some .ExtraDebugInfo
+  | _ => none
+
+def handle (_engine : String) (args : List String) : String :=
+  match args with
+  | ["mozraw", s] =>
+    match (field "server:" s) >>= decodeStr with
+    | none => "bad-op"
+    | some sr =>
+      match mozLookup { debug_id := [], debug_file := [], cache_rel := [], server_rel := sr } with
+      | .panic _ => "PANIC"
+      | .ok l => s!"server:{encodeStr l.server_rel}"
+  | ["join", fl, r, s] =>
+    match (if fl == "unix" then some Flavor.unix else if fl == "windows" then some Flavor.windows else none),
+          (field "root:" r) >>= decodeStr, (field "rel:" s) >>= decodeStr with
+    | some f, some root, some rel =>
+      let j := pathJoin f root rel
+      -- inside: the joined path starts with root's components and the walk over the rest never climbs
+      let rc := f.comps root
+      let jc := f.comps j
+      let inside := !f.replaces rel && jc.take rc.length == rc && (walkDepth 0 (jc.drop rc.length)).isSome
+      s!"joined:{encodeStr j} inside:{b01 inside}"
+    | _, _, _ => "bad-op"
+  | ["urljoin", b, s] =>
+    match (field "base:" b) >>= decodeStr, (field "rel:" s) >>= decodeStr with
+    | some base, some rel =>
+      match joinLookupPath base rel with
+      | none => "none"
+      | some p => s!"path:{encodeStr p}"
+    | _, _ => "bad-op"
+  | "url" :: op :: b :: rest =>
+    match (field "base:" b) >>= decodeStr, parseModule rest with
+    | some base, some m =>
+      let rel : Option (Option Str) :=
+        if op == "codeinfo" then some (codeInfoBreakpadSymLookup m)
+        else if op.startsWith "moz-" then
+          (kindOf (op.drop 4).toString).map fun k =>
+            match lookup m k with
+            | none => none
+            | some l => match mozLookup l with
+              | .ok l' => some l'.server_rel
+              | .panic _ => none
+        else (kindOf op).map fun k => (lookup m k).map (·.server_rel)
+      match rel with
+      | none => "bad-op"
+      | some none => "none"
+      | some (some r) =>
+        match joinLookupPath base r with
+        | none => "none"
+        | some p => s!"path:{encodeStr p}"
+    | _, _ => "bad-op"
+  | ["rooted", s] =>
+    match (field "rel:" s) >>= decodeStr with
+    | none => "bad-op"
+    | some rel => s!"rooted:{b01 (rootedb rel)}"
+  | op :: rest =>
+    match parseModule rest with
+    | none => "bad-op"
+    | some m =>
+      match op with
+      | "codeinfo" => showRel (codeInfoBreakpadSymLookup m)
+      | "old-codeinfo" => showRel (codeInfoLookupOld m)
+      | _ =>
+        if op.startsWith "moz-" then
+          match kindOf (op.drop 4).toString with
+          | some k => showMoz (lookup m k)
+          | none => "bad-op"
+        else if op.startsWith "old-" then
+          match kindOf (op.drop 4).toString with
+          | some k => showOptLookup (lookupOld m k)
+          | none => "bad-op"
+        else
+          match kindOf op with
+          | some k => showOptLookup (lookup m k)
+          | none => "bad-op"
+  | _ => "bad-op"
 
 end MdModel.Paths
